@@ -676,6 +676,23 @@ Theorem C16_calls_leave_callers_memory : forall K (mac : K -> bytes -> bytes) k 
 Proof. exact @calls_leave_arrays. Qed.
 Print Assumptions C16_calls_leave_callers_memory.
 
+(** The signer uses the WHOLE key it is given (what signer.New stores:
+    [gen_signer_key_whole]): related keys - a shared prefix, one a prefix of the
+    other - are different keys. *)
+Theorem C16_signer_key_whole : signer_key_whole gen_signer_stored_key = true.
+Proof. exact gen_signer_key_whole. Qed.
+Print Assumptions C16_signer_key_whole.
+
+Theorem C16_key_used_is_key : forall key, keep_all key = key.
+Proof. exact key_used_is_key. Qed.
+Print Assumptions C16_key_used_is_key.
+
+Theorem C16_whole_key_other_key_rejected : forall (mac : bytes -> bytes -> bytes), mac_len_law mac ->
+  forall key key' d,
+  obj_check mac keep_all key' (obj_sign mac keep_all key d) = None <-> mac key' d <> mac key d.
+Proof. exact whole_key_other_key_rejected. Qed.
+Print Assumptions C16_whole_key_other_key_rejected.
+
 (** One verifier, many tokens, a card that changes (keys added, removed, expired,
     replaced under the same id): every verification is a function of the token,
     the card in force at that moment and the clock. *)
@@ -940,3 +957,20 @@ Example C16_in_place_append_refuted :
   firstn 5 (skipn 3 (hget (o_heap (fst (own_run toy_mac 7%N false init_ostate [OAlloc a; OSign (mkS 0 0 3)]))) 0)) = repeat 172%N 5 /\
   hget (o_heap (fst (own_run toy_mac 7%N true init_ostate [OAlloc a; OSign (mkS 0 0 3)]))) 0 = a.
 Proof. vm_compute. repeat split. Qed.
+
+(** A constructor that keeps the first 32 bytes of the key is refuted: two keys
+    that agree on 32 bytes and differ after them verify each other's blobs,
+    for every MAC; with the whole key the toy MAC tells them apart. *)
+Example C16_truncating_constructor_refuted :
+  forall (mac : bytes -> bytes -> bytes), mac_len_law mac ->
+  let m := repeat 77%N 32 in
+  forall d, obj_check mac (keep_first 32) (m ++ [2]%N) (obj_sign mac (keep_first 32) (m ++ [1]%N) d) = Some d.
+Proof. intros mac L m d. apply truncating_constructor_refuted; [exact L|reflexivity]. Qed.
+
+Definition len_mac (k d : bytes) : bytes := repeat (N.of_nat (List.length k) + nth 32 k 0)%N 32.
+
+Example C16_whole_key_tells_related_keys_apart :
+  let m := repeat 77%N 32 in
+  obj_check len_mac keep_all (m ++ [2]%N) (obj_sign len_mac keep_all (m ++ [1]%N) [5]%N) = None /\
+  obj_check len_mac (keep_first 32) (m ++ [2]%N) (obj_sign len_mac (keep_first 32) (m ++ [1]%N) [5]%N) = Some [5]%N.
+Proof. vm_compute. split; reflexivity. Qed.
